@@ -131,18 +131,17 @@ def judgeReflect (impl : List String) : Judged :=
   let vO : Option RV := (kv impl "v").bind (fun s => (prv.run s.toList).map (·.1))
   match shO, vO with
   | some (Shape.struct fs), some (RV.struct vs) =>
-    let fuel := ((kv impl "sh").getD "").length + 10
     let head := s!"dict={dictTok} sh={(kv impl "sh").getD ""} v={(kv impl "v").getD ""} "
     let iM := (kv impl "m").getD ""
     match marshalStruct find fs vs with
     | .ok as =>
       let z := zeroOf.zeroFields fs
-      let u := RV.struct (scanFields find fuel fs as z)
+      let u := RV.struct (scanFields find fs as z)
       -- wire: the implementation's own bytes, decoded by the codec model under the entries' typing
       let ty := fun (code _vendor : Nat) => match ents.find? (fun e => e.1 = code) with | some e => e.2.2.2 | none => 0
       let wireB := ((kv impl "wire").bind fromHex).getD []
       let w := match decodeAVPs ty (wireB.length + 1) wireB with
-        | .ok was => showRV (RV.struct (scanFields find fuel fs was z))
+        | .ok was => showRV (RV.struct (scanFields find fs was z))
         | _ => "readerr"
       let model := head ++ s!"m={showAVPs as} len=ok u={showRV u} wire={hexOrDash wireB} w={w}"
       let canon := DV.Spec.canonL as
